@@ -128,6 +128,13 @@ fn build(gi: &GInst, n_opt: usize, n_var: usize, over: Option<(usize, usize, Vec
     Inst { opcode: gi.opcode, rtype: if gi.has_rtype() { Some(1000) } else { None }, rid: if gi.has_rid() { Some(1001) } else { None }, args }
 }
 
+/// the minimal shape of `gi` with every optional operand up to value-operand position `pos` present and the operand
+/// at `pos` replaced by `args`
+pub fn with_operand(gi: &GInst, pos: usize, args: Vec<Arg>) -> Inst {
+    let n_opt = gi.value_operands()[..=pos].iter().filter(|o| o.1 == Quant::ZeroOrOne).count();
+    build(gi, n_opt, 0, Some((pos, 0, args)))
+}
+
 pub fn n_optional(gi: &GInst) -> usize {
     gi.value_operands().iter().filter(|o| o.1 == Quant::ZeroOrOne).count()
 }
@@ -379,6 +386,17 @@ pub fn pattern_shapes(tier: Tier) -> Vec<Shape> {
             for n in [3usize, 4, 5] {
                 out.push(Shape { id: format!("{}:pattern:var{}", gi.name, n), inst: build(gi, n_optional(gi), n, None) });
             }
+        }
+    }
+    // equal ids in several places: every id of the fullest shape (and of the three-repetition shape) is the same number
+    for gi in &g.insts {
+        let mut v = vec![fullest(gi)];
+        if has_variadic(gi) {
+            v.push(build(gi, n_optional(gi), 3, None));
+        }
+        for (k, i) in v.into_iter().enumerate() {
+            let a = crate::model::remap_ids(&i, &|_| 7);
+            out.push(Shape { id: format!("{}:pattern:all-ids-equal{}", gi.name, k), inst: a });
         }
     }
     // masks: one carrier per kind (the first opcode in table order that has the kind as a plain operand)
